@@ -967,6 +967,10 @@ def run_case(case, ch: Choices) -> RunResult:
                 if good:
                     n_before = len(captured)
                     _c, exc_m = send(client, op, live, good + [lambda: None], None)
+                    for e_ in _all_nodes(op):
+                        # (the shared union attributes this expression touched were touched for good, D25)
+                        if e_["how"] == "uattr":
+                            shared_uses[(e_["parent"], e_["gql"])] = shared_uses.get((e_["parent"], e_["gql"]), 0) + 1
                     if exc_m is not None and len(captured) == n_before:
                         res.bump("history.call_with_a_non_field_argument_raised")
                         built_ops.append((op, good))
